@@ -417,7 +417,12 @@ def sz1(ctx):
     for b in cbs:
         exits = [e['point'] for e in b.ok_exits()]
         sl = setlen_full_sites(ctx, b)
-        d_len = bool(sl) and all(any(b.dominates(p, e) for p in sl) for e in exits)
+        creates = [p for (p, e, cs) in ctx.E.direct_sites(b) if e == 'CREATE']
+        # from the creating open, no successful return is reached without passing set_len / the rewind (the create may
+        # sit in a larger body -- a constructor that creates the first file only when none exists)
+        def passed(sites):
+            return bool(sites) and all(not any(x in b.reach_after(c, avoid=set(sites)) for x in exits) for c in creates)
+        d_len = passed(sl)
         seeks = []
         for (p, e, cs) in ctx.E.direct_sites(b):
             if e == 'SEEK' and cs.name.endswith('::rewind'):
@@ -428,7 +433,7 @@ def sz1(ctx):
                     for o in b.trace_local(al):
                         if o[0] == 'rv' and o[2]['k'] == 'agg' and o[2].get('variant') == 'Start' and o[2]['ops'] and op_const_bits(o[2]['ops'][0]) == 0:
                             seeks.append(p)
-        d_seek = bool(seeks) and all(any(b.dominates(p, e) for p in seeks) for e in exits)
+        d_seek = passed(seeks)
         ms = ctx.E.openoptions_methods(b)
         bad_m = sorted(ms - {'new', 'create_new', 'write', 'read', 'open'})
         ctx.check(d_len and d_seek, '%s:sized-and-rewound' % b.path, b.span, 'Ok dominated by set_len(FILE_NUM_BYTES) and seek(Start(0))',
